@@ -29,6 +29,9 @@ pub mod tpl;
 #[cfg(test)]
 mod utils;
 
+#[cfg(feature = "verif-hooks")]
+pub mod verif_hooks;
+
 use endian_aware_io::{EndianAwareReader, EndianAwareWriter};
 
 pub use asset_binary::{AssetBinary, AssetSpec};
